@@ -1511,8 +1511,9 @@ def c15(tier, seed):
 def c14_docs(dm):
     from xml.sax.saxutils import escape
     hdr = '<scxml xmlns="http://www.w3.org/2005/07/scxml" version="1.0" datamodel="%s" name="%s">'
-    c1 = (hdr % (dm, "C1")) + '<datamodel><data id="a" expr="0"/></datamodel><state id="c">' \
-        '<onentry><script>mark(\'cstart\', _name, a)</script><send target="#_parent" event="hello"/></onentry>' \
+    c1 = (hdr % (dm, "C1")) + '<datamodel><data id="a" expr="0"/><data id="nl" expr="0"/></datamodel><state id="c">' \
+        '<onentry><script>mark(\'cstart\', _name, a, nl)</script><send target="#_parent" event="hello"/></onentry>' \
+        '<onentry><script>mark(\'hasb\', b)</script></onentry>' \
         '<transition event="ping"><send target="#_parent" event="pong"/></transition>' \
         '<transition event="fin" target="f"><send target="#_parent" event="bye"/></transition>' \
         '</state><final id="f"/></scxml>'
@@ -1520,12 +1521,12 @@ def c14_docs(dm):
                                             + ('<send target="#_parent" event="hi2"/>' if nm == "C2" else "") + \
                                             '</onentry><transition event="stop" target="f"/></state><final id="f"/></scxml>'
     recv = "<script>mark('recv', _event.name, _event.invokeid)</script>"
-    pdoc = (hdr % (dm, "P")) + '<datamodel><data id="x" expr="0"/></datamodel>' \
+    pdoc = (hdr % (dm, "P")) + '<datamodel><data id="x" expr="0"/><data id="nl" expr="7"/></datamodel>' \
         '<state id="s0"><transition event="go" target="sA"/><transition event="tr" target="sT"/><transition event="err" target="sE"/><transition event="*">' + recv + '</transition></state>' \
         '<state id="sT"><invoke type="scxml" id="kidT"><content>' + plain("CT") + '</content></invoke>' \
         '<transition target="sB"/></state>' \
         '<state id="sA">' \
-        '<invoke type="scxml" id="kid"><param name="a" expr="1"/><param name="b" expr="2"/><content>' + c1 + '</content>' \
+        '<invoke type="scxml" id="kid" namelist="nl"><param name="a" expr="1"/><param name="b" expr="2"/><content>' + c1 + '</content>' \
         '<finalize><script>mark(\'fin\', _event.name)</script></finalize></invoke>' \
         '<invoke type="scxml" id="kidf" autoforward="true"><content>' + plain("C2") + '</content></invoke>' \
         '<transition event="leave" target="s0"/>' \
@@ -1639,7 +1640,9 @@ def c14(tier, seed):
             ended = False
             for x in recs:
                 if x[0] == "M" and x[1] == "cstart":
-                    nm, a = tracelib.val_str(x[2][0]), tracelib.val_str(x[2][1])
+                    nm, a = tracelib.val_str(x[2][0]), "/".join(tracelib.val_str(y) for y in x[2][1:])
+                elif x[0] == "M" and x[1] == "hasb":
+                    hasb = True        # the undeclared 'b' exists in the child: a param value was created for it
                 elif x[0] == "XR":
                     if x[1]["name"] == "error.platform.cancel":
                         cancelled = True
@@ -1648,7 +1651,7 @@ def c14(tier, seed):
                 elif x[0] == "END":
                     ended = True
             return {"name": nm, "recv": recv, "final": ended and not cancelled, "cancelled": cancelled, "a": a,
-                    "wanta": "1" if nm == "C1" else a, "hasb": hasb}
+                    "wanta": "1/7" if nm == "C1" else a, "hasb": hasb}
         prec = []
         kids = []
         for x in logs[pidx]:
@@ -2865,7 +2868,9 @@ def c11(tier, seed):
             i = rng.randrange(len(t) + 1)
             texts.append(t[:i] + chr(rng.choice([0x0, 0x7f, 0xe9, 0x3b1, 0x65e5, 0x1f600, 0x202e, 0xfeff])) + t[i:])
     texts = list(dict.fromkeys(texts))
-    jobs = [{"id": i + 1, "text": t, "store": True, "timeout_ms": 1500} for i, t in enumerate(texts)]
+    # "hang" means no answer within the time limit; long structured inputs get a generous one (a default build prints the
+    # parser stack at every reduction: quadratic in the length of a chain, slow but terminating)
+    jobs = [{"id": i + 1, "text": t, "store": True, "timeout_ms": 1500 if len(t) < 2000 else 240000} for i, t in enumerate(texts)]
     results, died = run_expr_jobs(jobs, wd, name="fuzz", chunk=5000)
     died_ids = {j["id"]: (rc, msg) for (j, rc, msg) in died}
     recs = []
